@@ -13,22 +13,71 @@ from common import NCPU, Machinery, Scratch, nucs_env, read_ndjson, run_workers,
 
 # focus -> knobs of the item generator
 FOCUS = {
-    "C01": dict(modes=["solve", "solve", "min", "max"], ca=None),
-    "C02": dict(modes=["solve"], ca=None, reorder=True, allcfg=True),
+    "C01": dict(branching=True, modes=["solve", "solve", "min", "max"], ca=None),
+    "C02": dict(branching=True, modes=["solve"], ca=None, reorder=True, allcfg=True),
     "C03": dict(modes=["min", "max"], ca=None, allvars=True),
     "C04": dict(modes=["solve", "solve", "min"], ca=None, flavours=["circuit", "alias", "alias", "int", "bool"]),
     "C07": dict(modes=["solve"], ca=None, flavours=["int", "int", "bool", "alias"]),
-    "C08": dict(modes=["solve"], ca=0, flavours=["int", "int", "bool", "circuit", "alias"]),
-    "C09": dict(modes=["solve", "solve", "min"], ca=None, allcfg=True),
+    "C08": dict(modes=["solve", "solve", "min", "max"], ca=0, flavours=["int", "int", "bool", "circuit", "alias"]),
+    "C09": dict(branching=True, modes=["solve", "solve", "min"], ca=None, allcfg=True),
     "C10": dict(modes=["solve", "solve", "min", "max"], ca=1),
     "C17": dict(modes=["solve", "solve", "min", "max"], ca=None, limits=True),
     "C16": dict(modes=["solve", "min"], ca=None),
     "C19": dict(modes=["solve"], ca=None),
 }
-SIZES = {"quick": 1600, "thorough": 40000}
+SIZES = {"quick": 2400, "thorough": 60000}
+
+
+def _cost_tables(r, P):
+    width = max(hi for _, hi in P["doms"]) + 1
+    return [[r.randint(1, 3) for _ in range(width)] for _ in P["doms"]]
+
+
+def systematic_items(tier: str, seed: int, focus: str):
+    """The exhaustive small family (2 domains within 0..2 x one constraint of the catalogue, 2196 problems) under a
+    systematic choice of configurations: all five value heuristics for the properties that are about branching,
+    every configuration in the thorough tier, a rotating one otherwise."""
+    r = random.Random(seed * 77 + 5)
+    knobs = FOCUS[focus]
+    out = []
+    for i, P in enumerate(problems.small_family()):
+        if all(lo == hi for lo, hi in P["doms"]) and i % 4:
+            continue
+        if tier == "thorough":
+            cfgs = [(ca, vh, dh) for ca in (0, 1) for vh in (0, 1, 2, 3) for dh in (0, 1, 2, 3, 4)]
+            if knobs.get("ca") is not None:
+                cfgs = [c for c in cfgs if c[0] == knobs["ca"]]
+        elif knobs.get("branching"):
+            ca = knobs["ca"] if knobs.get("ca") is not None else (1 if (i + seed) % 7 == 0 else 0)
+            cfgs = [(ca, (i + seed) % 4 if dh == (i % 5) else 0, dh) for dh in (0, 1, 2, 3, 4)]
+        else:
+            j = i + seed
+            ca = knobs["ca"] if knobs.get("ca") is not None else (j // 20) % 2
+            cfgs = [(ca, (j // 5) % 4, j % 5)]
+        for ca, vh, dh in cfgs:
+            cfg = {"ca": ca, "vh": vh, "dh": dh, "height": 64}
+            if vh == 3:
+                cfg["vparams"] = _cost_tables(r, P)
+            if dh == 4:
+                cfg["dparams"] = _cost_tables(r, P)
+            mode = knobs["modes"][(i + dh) % len(knobs["modes"])]
+            it = {"P": P, "cfg": cfg, "mode": mode}
+            if mode != "solve":
+                it["var"] = (i + dh) % 2
+            out.append(it)
+    return out
 
 
 def build_items(tier: str, seed: int, focus: str, n: int | None = None):
+    items = _random_items(tier, seed, focus, n)
+    if n is None:
+        items += systematic_items(tier, seed, focus)
+    for k, it in enumerate(items):
+        it["id"] = k
+    return items
+
+
+def _random_items(tier: str, seed: int, focus: str, n: int | None = None):
     knobs = FOCUS[focus]
     r = random.Random(seed * 1_000_003 + sum(map(ord, focus)))
     n = n or SIZES[tier]
@@ -36,6 +85,8 @@ def build_items(tier: str, seed: int, focus: str, n: int | None = None):
     k = 0
     while len(items) < n:
         flav = r.choice(knobs["flavours"]) if knobs.get("flavours") else None
+        if knobs.get("branching") and r.random() < 0.5:
+            flav = "triple"
         P = problems.random_problem(r, cap=600, flavour=flav)
         variants = [P]
         if knobs.get("reorder") and len(P["props"]) > 1 and r.random() < 0.3:
@@ -47,6 +98,10 @@ def build_items(tier: str, seed: int, focus: str, n: int | None = None):
                 cfgs = list(problems.all_configs(V, r))
             else:
                 cfgs = [problems.random_config(r, V, ca=knobs.get("ca")) for _ in range(r.choice([1, 1, 2]))]
+                if flav == "triple":   # nested three-way splits
+                    for c in cfgs:
+                        if c["dh"] in (0, 1, 2) and r.random() < 0.7:
+                            c["dh"] = 3
             for cfg in cfgs:
                 mode = r.choice(knobs["modes"])
                 vars_ = [None]
@@ -79,7 +134,8 @@ def item_key(it):
 
 
 def record_and_judge(items, tmp, probes=True, timeout=3000):
-    jobs = [{"items": items[k::NCPU], "probes": probes} for k in range(NCPU) if items[k::NCPU]]
+    nested = all(it["cfg"].get("ca") == 1 for it in items)
+    jobs = [{"items": items[k::NCPU], "probes": probes, "nested_probes": nested} for k in range(NCPU) if items[k::NCPU]]
     outs = run_workers("rec_engine.py", jobs, nucs_env(jit=False), tmp, timeout=timeout)
     traces = list(read_ndjson(outs))
     for f in outs:
